@@ -184,6 +184,7 @@ def main(argv=None):
         os.execv(sys.executable, [sys.executable, a.replay])
     t0 = time.time()
     prop = a.prop
+    os.environ["VERIF_TIER"] = a.tier
     timeout_ms = 10000 if a.tier == "quick" else 60000
     try:
         src, reg = _load_registry()
@@ -201,8 +202,18 @@ def main(argv=None):
     inner = max(1, a.jobs // jobs)
     from .par import pmap
     recs = pmap(_verify_worker, [(i, prop, timeout_ms, inner) for i in idxs], jobs)
-    from .report import finish
-    return finish(prop, a.tier, seed, recs, assumed, reg, time.time() - t0, timeout_ms)
+    # bounded stand-ins: the executable contracts run natively on their own small-scope case generators
+    from .report import finish, native_in_subprocess
+    bounded = []
+    for i in idxs:
+        c = reg.order[i]
+        res, err = native_in_subprocess("run_cases", c.target, c.spec_mod, c.name, a.tier, seed, timeout=900)
+        if res is None:
+            bounded.append({"target": c.target, "contract": c.name, "spec_mod": c.spec_mod, "error": err[-400:]})
+        elif res.get("cases"):
+            res.update({"target": c.target, "contract": c.name, "spec_mod": c.spec_mod})
+            bounded.append(res)
+    return finish(prop, a.tier, seed, recs, assumed, reg, time.time() - t0, timeout_ms, bounded)
 
 
 if __name__ == "__main__":
